@@ -717,8 +717,12 @@ def rule_O2(ctx) -> None:
     member_atom = ("op", "in", N(attr_p), ogbf)
     get_call = ("call", A(ogbf, "get"), (N(attr_p),), ())
     post_atom = CALL(N("hasattr"), SELF, C("_group_current"))
+    # the selection table, however the instance attribute is reached
+    dict_get = CALL(A(A(SELF, "__dict__"), "get"), C("_group_current"))
+    TABLES = {A(SELF, "_group_current"), ("sub", A(SELF, "__dict__"), C("_group_current")), dict_get}
     # attr is a oneof member, __post_init__ has run: whichever way the code asks
-    paths = Interp(mod, assume={member_atom: True, post_atom: True, ("op", "is", get_call, C(None)): False, get_call: True}, fork_ifexp=True).run(fn)
+    paths = Interp(mod, assume={member_atom: True, post_atom: True, ("op", "is", get_call, C(None)): False, get_call: True, ("op", "is", dict_get, C(None)): False, dict_get: True,
+                                ("op", "in", C("_group_current"), A(SELF, "__dict__")): True}, fork_ifexp=True).run(fn)
     ctx.count(len(paths))
     if not paths:
         raise AnalysisError("__setattr__: no path")
@@ -740,7 +744,7 @@ def rule_O2(ctx) -> None:
         in_loop = any(e.kind == "loop" for e in p.events)
         p_rec = p_reset = False
         for e in p.events:
-            if e.kind == "store" and e.data[0][0] == "sub" and e.data[0][1] == A(SELF, "_group_current"):
+            if e.kind == "store" and e.data[0][0] == "sub" and e.data[0][1] in TABLES:
                 v = e.data[1]
                 names_attr = v == N(attr_p) or (v[0] == "a" and v[2] == "name" and eq is True)
                 if names_attr:
